@@ -538,9 +538,18 @@ pub fn c18(ctx: &Ctx, rep: &mut Report) {
         let mut rng = Rng::derive(&[ctx.seed, ctx.shard, idx, 18]);
         let fmt = if idx % 2 == 0 { Fmt::Fasta } else { Fmt::Fastq };
         let sets = idx % 4 >= 2;
-        let cap = if ctx.miri { 64 } else { *rng.pick(&[64usize, 100, 256, 1000, 4096, 65536]) };
+        // FASTA records with hundreds of sequence lines (every 8th FASTA case)
+        let many_lines = fmt == Fmt::Fasta && idx % 16 >= 12 && !ctx.miri;
+        let cap = if ctx.miri {
+            64
+        } else if many_lines {
+            65536
+        } else {
+            *rng.pick(&[64usize, 100, 256, 1000, 4096, 65536])
+        };
         let max_rec = (cap / 4).clamp(10, 2000);
-        let rec_size = rng.range(10, max_rec);
+        let max_lines = if many_lines { rng.range(260, 700) } else { 4 };
+        let rec_size = if many_lines { max_lines * rng.range(2, 12) } else { rng.range(10, max_rec) };
         // enough records for >= 6 buffer fills (half warm-up, half measured), at least 40
         let n = ((14 * cap) / rec_size + 2).max(40).min(if ctx.miri { 60 } else { 100_000 });
         let warm = n / 2;
@@ -549,11 +558,11 @@ pub fn c18(ctx: &Ctx, rep: &mut Report) {
         for i in 0..n {
             // identical records for record sets; variable (bounded by the warm-up maxima) for next()
             let (sz, nlines) = if sets {
-                (rec_size, 1 + (rec_size % 3))
+                (rec_size, if many_lines { max_lines } else { 1 + (rec_size % 3) })
             } else if i < warm {
-                if i == 3 { (rec_size, 4) } else { (rng.range(8, rec_size), 1 + rng.below(4)) }
+                if i == 3 { (rec_size, max_lines) } else { (rng.range(8, rec_size), 1 + rng.below(max_lines)) }
             } else {
-                (rng.range(8, rec_size), 1 + rng.below(4))
+                (rng.range(8, rec_size), 1 + rng.below(max_lines))
             };
             sizes.push(sz);
             match fmt {
@@ -739,7 +748,7 @@ pub fn c18(ctx: &Ctx, rep: &mut Report) {
         match res {
             Err(c) => crate::m_basic::caught_violation(rep, &c, "steady-state reading", replay()),
             Ok((a, r, g, changed, outside, measured, applicable)) => {
-                rep.map("mode", &format!("{}:{}", fmt.name(), if sets { "record_set" } else { "next" }));
+                rep.map("mode", &format!("{}:{}{}", fmt.name(), if sets { "record_set" } else { "next" }, if many_lines { ":many-lines" } else { "" }));
                 if !applicable {
                     rep.count("not_applicable_batch_grew");
                 } else {
@@ -999,6 +1008,136 @@ where
     Ok(())
 }
 
+/// walk with the positional methods: nth / nth_back with arguments around the remaining
+/// length, interleaved with single steps, against the deque model
+fn walk_nth<'a, I>(mut it: I, expect: &[&'a [u8]], rng: &mut Rng) -> Result<(), String>
+where
+    I: DoubleEndedIterator<Item = &'a [u8]> + ExactSizeIterator,
+{
+    let mut model: VecDeque<&[u8]> = expect.iter().copied().collect();
+    for step in 0..expect.len() + 3 {
+        let rem = model.len();
+        let arg = match rng.below(5) {
+            0 => 0,
+            1 => rem.saturating_sub(1),
+            2 => rem,
+            3 => rem + 1,
+            _ => rng.below(rem + 1),
+        };
+        let (name, got, want): (&str, Option<&[u8]>, Option<&[u8]>) = match rng.below(4) {
+            0 => ("next", it.next(), model.pop_front()),
+            1 => ("next_back", it.next_back(), model.pop_back()),
+            2 => {
+                let g = it.nth(arg);
+                let w = if arg < rem {
+                    for _ in 0..arg {
+                        model.pop_front();
+                    }
+                    model.pop_front()
+                } else {
+                    model.clear();
+                    None
+                };
+                ("nth", g, w)
+            }
+            _ => {
+                let g = it.nth_back(arg);
+                let w = if arg < rem {
+                    for _ in 0..arg {
+                        model.pop_back();
+                    }
+                    model.pop_back()
+                } else {
+                    model.clear();
+                    None
+                };
+                ("nth_back", g, w)
+            }
+        };
+        if got != want {
+            return Err(format!(
+                "step {}: {}({}) with {} items remaining returned {:?}, expected {:?}",
+                step,
+                name,
+                arg,
+                rem,
+                got.map(show),
+                want.map(show)
+            ));
+        }
+        if it.len() != model.len() {
+            return Err(format!("after {}({}) len() is {} but {} items remain", name, arg, it.len(), model.len()));
+        }
+    }
+    Ok(())
+}
+
+/// consuming methods after a prefix of front/back steps
+fn check_terminal_ops(rec: &fasta::RefRecord, lines: &[&[u8]]) -> Result<(), String> {
+    let n = lines.len();
+    for f in 0..=n.min(3) {
+        for b in 0..=(n - f).min(3) {
+            let mk = || {
+                let mut it = rec.seq_lines();
+                for _ in 0..f {
+                    it.next();
+                }
+                for _ in 0..b {
+                    it.next_back();
+                }
+                it
+            };
+            let rest = &lines[f..n - b];
+            if mk().count() != rest.len() {
+                return Err(format!("count() after {} front / {} back steps is {}, {} items remain", f, b, mk().count(), rest.len()));
+            }
+            if mk().last() != rest.last().copied() {
+                return Err(format!("last() after {} front / {} back steps", f, b));
+            }
+            let fw: Vec<&[u8]> = mk().fold(vec![], |mut v, x| {
+                v.push(x);
+                v
+            });
+            if fw != rest {
+                return Err(format!("fold() after {} front / {} back steps", f, b));
+            }
+            let bw: Vec<&[u8]> = mk().rfold(vec![], |mut v, x| {
+                v.push(x);
+                v
+            });
+            if bw != rest.iter().rev().copied().collect::<Vec<_>>() {
+                return Err(format!("rfold() after {} front / {} back steps", f, b));
+            }
+            for k in 0..=rest.len() + 1 {
+                let got: Vec<&[u8]> = mk().rev().skip(k).collect();
+                let want: Vec<&[u8]> = rest.iter().rev().skip(k).copied().collect();
+                if got != want {
+                    return Err(format!("rev().skip({}) after {} front / {} back steps yields {} items, expected {}", k, f, b, got.len(), want.len()));
+                }
+                if mk().rev().nth(k) != rest.iter().rev().nth(k).copied() {
+                    return Err(format!("rev().nth({}) after {} front / {} back steps", k, f, b));
+                }
+                if k >= 1 {
+                    let got: Vec<&[u8]> = mk().step_by(k).collect();
+                    let want: Vec<&[u8]> = rest.iter().step_by(k).copied().collect();
+                    if got != want {
+                        return Err(format!("step_by({}) after {} front / {} back steps", k, f, b));
+                    }
+                    let got: Vec<&[u8]> = mk().rev().step_by(k).collect();
+                    let want: Vec<&[u8]> = rest.iter().rev().step_by(k).copied().collect();
+                    if got != want {
+                        return Err(format!("rev().step_by({}) after {} front / {} back steps", k, f, b));
+                    }
+                }
+            }
+            if mk().rposition(|x| x.is_empty()) != rest.iter().rposition(|x| x.is_empty()) {
+                return Err(format!("rposition() after {} front / {} back steps", f, b));
+            }
+        }
+    }
+    Ok(())
+}
+
 fn check_adaptors(rec: &fasta::RefRecord, lines: &[&[u8]]) -> Result<(), String> {
     let n = lines.len();
     let er: Vec<(usize, &[u8])> = rec.seq_lines().enumerate().rev().collect();
@@ -1084,6 +1223,11 @@ pub fn c20(ctx: &Ctx, rep: &mut Report) {
                 }
             }
             check_adaptors(&rec, &lines)?;
+            for _ in 0..(if ctx.miri { 2 } else { 24 }) {
+                walk_nth(rec.seq_lines(), &lines, &mut rng)?;
+                walks += 1;
+            }
+            check_terminal_ops(&rec, &lines)?;
             Ok(walks)
         });
         rep.evaluations += 1;
@@ -1117,6 +1261,23 @@ pub fn c20(ctx: &Ctx, rep: &mut Report) {
             macro_rules! check_set_iter {
                 ($set:expr) => {{
                     let n = $set.len();
+                    if $set.into_iter().count() != n {
+                        return Err(format!("record-set iterator: count() is {} for a set of {} records", $set.into_iter().count(), n));
+                    }
+                    if $set.into_iter().last().is_some() != (n > 0) {
+                        return Err("record-set iterator: last()".into());
+                    }
+                    for k in [0usize, n.saturating_sub(1), n, n + 1] {
+                        let mut it = $set.into_iter();
+                        let got = it.nth(k).is_some();
+                        if got != (k < n) {
+                            return Err(format!("record-set iterator: nth({}) of {} records is {}", k, n, if got { "present" } else { "missing" }));
+                        }
+                        let left = it.count();
+                        if left != n.saturating_sub(k + 1) {
+                            return Err(format!("record-set iterator: {} items after nth({}) of {}", left, k, n));
+                        }
+                    }
                     let mut it = $set.into_iter();
                     for taken in 0..=n + 2 {
                         let rem = n.saturating_sub(taken);
